@@ -107,11 +107,74 @@ LABELLED = [
     ("NoUnusedVariables", "query One($x: Int) { ...UsesX } query Two($x: Int) { count } fragment UsesX on Query { me { lim(a: $x) } }"),
     ("VariablesInAllowedPosition", "query A($v: String) { echo(s: $v) } query B($v: Int) { echo(s: $v) }"),
     ("VariablesInAllowedPosition", "query B($v: Int) { ...E } query A($v: String) { ...E } fragment E on Query { echo(s: $v) }"),
+    ("VariablesInAllowedPosition", "query A($v: String) { ...E } query B($v: Int) { ...E } fragment E on Query { echo(s: $v) }"),
+    ("VariablesInAllowedPosition", "query First($flag: Boolean!) { ...F } query Second($flag: Boolean) { ...F } fragment F on Query { count @skip(if: $flag) }"),
+    ("VariablesInAllowedPosition", "query Second($flag: Boolean) { ...F } query First($flag: Boolean!) { ...F } fragment F on Query { count @skip(if: $flag) }"),
+    ("VariablesInAllowedPosition", "fragment F on Query { ...G } fragment G on Query { me { lim(tags: $t) } } query Ok($t: [String]) { ...F } query Bad($t: Int) { ...F } query Ok2($t: [String!]!) { ...G }"),
+    # an inline fragment without type condition keeps the enclosing type, also below list and non-null fields
+    ("FieldsOnCorrectType", "{ people { ... { nope } } }"),
+    ("FieldsOnCorrectType", "{ people { ... @include(if: true) { ... { nope } } } }"),
+    ("ScalarLeafs", "{ people { ... { name { x } } } }"),
+    ("ScalarLeafs", "{ owned { ... { owner } } }"),
     # the meta fields have a response shape like any other field (String! for __typename), also below a union (hunt H3/9)
     ("OverlappingFieldsCanBeMerged", "{ pet { ... on Dog { x: __typename } ... on Cat { x: lives } } }"),
     ("OverlappingFieldsCanBeMerged", "{ named { ... on Dog { x: __typename } ... on Cat { x: name } } }"),
     ("OverlappingFieldsCanBeMerged", "{ pet { ... on Cat { x: __typename } ... on Dog { x: owner { name } } } }"),
     ("OverlappingFieldsCanBeMerged", "{ pet { x: __typename ... on Dog { x: name } } }"),
+]
+# a second schema for shapes the execution schema does not have: interfaces that share implementers only partly, a union next to them, list arguments and input
+# fields with defaults, list / non-null fields of object type
+EXTRA_SDL = """
+interface Pet { name: String }
+interface Feline { name: String lives: Int }
+type Owner { name: String }
+type Dog implements Pet { name: String nickname: String owner: Owner speak(loud: Boolean): String }
+type Cat implements Pet & Feline { name: String nickname: String lives: Int speak(loud: Boolean): String }
+type Fish { name: String nickname: String }
+union CatOrFish = Cat | Fish
+input Filter { tags: [String!] = ["a"] ids: [Int!] }
+type Query {
+  pet: Pet
+  dogs: [Dog!]!
+  bestDog: Dog!
+  withDefault(list: [Int!] = [1]): Int
+  withoutDefault(list: [Int!]): Int
+  scalarWithDefault(n: Int! = 1): Int
+  nested(matrix: [[Int!]] = [[1]]): Int
+  search(filter: Filter = {}): Int
+}
+"""
+EXTRA_LABELLED = [
+    # same response name, different fields: allowed only when BOTH parents are object types - an interface or union parent demands the same field
+    ("OverlappingFieldsCanBeMerged", "{ pet { ... on Dog { n: nickname } ... on Feline { n: name } } }"),
+    ("OverlappingFieldsCanBeMerged", "{ pet { ... on Feline { n: name } ... on Dog { n: nickname } } }"),
+    ("OverlappingFieldsCanBeMerged", "{ pet { ... on Dog { name: nickname } ... on Feline { name } } }"),
+    ("OverlappingFieldsCanBeMerged", "{ pet { ...D ...F } } fragment D on Dog { n: nickname } fragment F on Feline { n: name }"),
+    ("OverlappingFieldsCanBeMerged", "{ pet { ... on Dog { speak(loud: true) } ... on Feline { speak(loud: false) } } }"[:0] or
+                                     "{ pet { ... on Dog { n: nickname } ... on Pet { n: name } } }"),
+    # the default of an argument / input field excuses a nullable variable at THAT position, not at the items of a list literal written there
+    ("VariablesInAllowedPosition", "query ($v: Int) { withDefault(list: [$v]) }"),
+    ("VariablesInAllowedPosition", "query ($v: Int) { withDefault(list: [1, 2, $v]) }"),
+    ("VariablesInAllowedPosition", "query ($v: Int) { nested(matrix: [[$v]]) }"),
+    ("VariablesInAllowedPosition", "query ($s: String) { search(filter: {tags: [$s]}) }"),
+    ("VariablesInAllowedPosition", "query ($v: Int) { withoutDefault(list: [$v]) }"),
+    # an inline fragment without type condition keeps the enclosing type, also below list and non-null fields
+    ("FieldsOnCorrectType", "{ dogs { ... { nope } } }"),
+    ("FieldsOnCorrectType", "{ bestDog { ... @include(if: true) { nope } } }"),
+    ("ScalarLeafs", "{ bestDog { ... { name { x } } } }"),
+    ("ScalarLeafs", "{ dogs { ... { owner } } }"),
+]
+EXTRA_VALID = [
+    "{ pet { ... on Dog { n: nickname } ... on Cat { n: name } } }",
+    "{ pet { ... on Dog { n: nickname } ... on CatOrFish { ... on Cat { n: name } } } }",
+    "{ pet { ... on Dog { speak(loud: true) } ... on Feline { ... on Cat { speak(loud: false) } } } }",
+    "{ dogs { ... { name owner { name } } } bestDog { ... { ... { nickname } } } }",
+    "query ($v: Int!) { withDefault(list: [$v]) }",
+    "query ($v: Int = 2) { withDefault(list: [$v]) }",
+    "query ($v: Int) { scalarWithDefault(n: $v) }",
+    "query ($v: [Int!]) { withDefault(list: $v) }",
+    "query ($s: String!) { search(filter: {tags: [$s]}) }",
+    "query ($t: [String!]) { search(filter: {tags: $t}) }",
 ]
 # valid documents that exercise order-dependent machinery
 VALID_TRICKY = [
@@ -280,6 +343,33 @@ def check(tier, seed):
     for text in VALID_TRICKY:
         if RV.validate(schema, parse(text)):
             raise MachineryDefect("reference rejects a document listed as valid: %r: %r" % (text, RV.violated_rules(schema, parse(text))))
+    # the second schema: labelled violations reported, valid documents accepted, verdict == reference, invariant under the irrelevant transformations
+    from py_gql import build_schema
+    from py_gql.lang import print_ast
+    extra = build_schema(EXTRA_SDL)
+    for rule, text in [(r, t) for r, t in EXTRA_LABELLED] + [(None, t) for t in EXTRA_VALID]:
+        ref = RV.validate(extra, parse(text))
+        if (rule is None and ref) or (rule is not None and rule not in {v.rule for v in ref}):
+            raise MachineryDefect("second schema: the reference says %r for %r (listed as %s)" % (sorted({v.rule for v in ref}), text, rule or "valid"))
+        n0 += 1
+        w = {"schema": "EXTRA_SDL", "rule": rule, "document": text}
+        try:
+            lib = lib_errors(extra, parse(text))
+        except Exception as e:
+            run.violation("validate:single-violation-is-reported", "%s: validate_ast raised %r" % (rule, e), w, True)
+            continue
+        if rule is not None and not lib:
+            run.violation("validate:single-violation-is-reported", "a document that breaks only %s is accepted: %s" % (rule, text), w, True)
+        if rule is None and lib:
+            run.violation("validate:verdict-matches-the-specification", "a valid document is rejected: %s (%s)" % (text, lib[0]), dict(w, library_errors=[str(e) for e in lib][:3]), True)
+        for label, d2 in transforms(parse(text), rnd):
+            try:
+                lib2 = lib_errors(extra, parse(print_ast(d2)))
+            except Exception:
+                continue
+            n0 += 1
+            if (not lib2) != (not lib):
+                run.violation("validate:verdict-invariant-under-irrelevant-changes", "%s changes the verdict of %s" % (label, text), dict(w, transformation=label), True)
     texts = [t for _r, t in LABELLED] + list(VALID_TRICKY) + list(c05.ADVERSARIAL) + [t for t, _v in H.OPERATIONS]
     gen, _rej = gen_ops.generate(schema, 300 if tier == "thorough" else 100, seed + 2)
     from py_gql.schema import InputObjectType, InterfaceType, ObjectType
